@@ -1,6 +1,7 @@
 package harness
 
 import (
+	"runtime"
 	"crypto/sha256"
 	"encoding/binary"
 	"encoding/hex"
@@ -62,6 +63,8 @@ type reqScn struct {
 	nrep  int
 	last  []byte // last injected reply
 	lastP string
+	used  map[int]bool    // contexts a step has referred to
+	rp    *hx.RecProto
 	el    time.Duration // virtual time elapsed (for the absolute "advto" steps of TLC-generated scenarios)
 }
 
@@ -159,9 +162,32 @@ func (c *reqScn) step(st string) {
 		if i >= len(c.pctxs) {
 			i = 0
 		}
+		if c.used == nil {
+			c.used = map[int]bool{}
+		}
+		if op != "reopen" {
+			c.used[i] = true
+		}
 		return i
 	}
 	switch op {
+	case "reopen":
+		// reopen cN: the context is opened now (while whatever is going on on the socket is going on) instead of
+		// before the scenario started - done only while nothing has used cN yet, so that the context it replaces was
+		// never seen; a context is born idle, whatever state the socket's own context is in
+		i := ci(arg(1))
+		if i == 0 || c.used[i] {
+			break
+		}
+		mc, err := c.sock.OpenContext()
+		if err != nil {
+			break
+		}
+		c.ctxs[i] = mc
+		c.pctxs[i] = c.rp.Ctxs[len(c.rp.Ctxs)-1]
+		if !c.cfg.Inherit {
+			setCtxOpts(mc.SetOption, c.cfg.Opts[i])
+		}
 	case "conn", "conngated":
 		c.npipe++
 		p := s.Net.NewPipe(fmt.Sprintf("p%d", c.npipe))
@@ -197,6 +223,28 @@ func (c *reqScn) step(st string) {
 			err := appSend(s, m, fn)
 			return []interface{}{"r", err}
 		})
+	case "send2":
+		// two Sends on one context straight after one another, the second before the goroutines the first one
+		// started have run (one processor): the second abandons the first whatever stage that has reached
+		i := ci(arg(1))
+		fn := c.sendOn(i)
+		var calls []sim.PCall
+		for k := 0; k < 2; k++ {
+			c.nmsg++
+			tag := fmt.Sprintf("m%d", c.nmsg)
+			body := []byte(tag + "|" + strings.Repeat("x", c.nmsg%7*11))
+			calls = append(calls, sim.PCall{Op: "send", O: c.cname(i), Args: []interface{}{"tag", tag}, Fn: func() []interface{} {
+				m := appNew(s, len(body))
+				m.Body = append(m.Body, body...)
+				err := appSend(s, m, fn)
+				return []interface{}{"r", err}
+			}})
+		}
+		s.Wait()
+		old := runtime.GOMAXPROCS(1)
+		s.SerialK("call", c.thread(), calls, nil)
+		s.Wait()
+		runtime.GOMAXPROCS(old)
 	case "sendb":
 		// the byte-slice API: Send copies - the buffer stays the caller's, who fills it with something else as soon as
 		// Send has returned; what is retransmitted later is still the request as it was sent
@@ -348,6 +396,7 @@ func runReq(t *testing.T, cfg reqCfg) sim.Result {
 		c.proto = req.NewProtocol()
 		rp := &hx.RecProto{Protocol: c.proto, Rec: s.Rec, Early: true}
 		c.sock = protocol.MakeSocket(rp)
+		c.rp = rp
 		hx.Hook(c.sock, s.Rec, func(ev, name string, p mangos.Pipe) { c.ids.Set(p.ID(), name) })
 		c.base = req.VerifSnapshot(c.proto, nil).NextID
 		// contexts inherit from the socket at OpenContext time: set the
@@ -443,6 +492,15 @@ func reqScripted() []reqCfg {
 		// requests sent through the byte-slice API from buffers the caller reuses at once: retransmissions (retry time,
 		// connection lost) carry the bytes that were sent
 		{Opts: []reqCtxOpt{d, d}, Steps: []string{"conngated", "sendb c0", "sendb c1", "recv c0", "recv c1", "release p1", "release p1", "adv 5s", "release p1", "release p1", "conn", "drop p1", "reply p2 cur c0", "reply p2 cur c1"}},
+		// a second Send straight after the first, before anything the first one started has run: the first request is
+		// abandoned at whatever stage it is - its answer is not delivered as the answer to the second
+		{Opts: []reqCtxOpt{d, d}, Steps: []string{"conn", "send2 c0", "recv c0", "replyid p1 1 hi", "replyid p1 2 hi", "send2 c1", "recv c1", "replyid p1 3 hi", "replyid p1 4 hi"}},
+		{Opts: []reqCtxOpt{d}, Steps: []string{"conngated", "send2 c0", "release p1", "release p1", "recv c0", "replyid p1 1 hi", "replyid p1 2 hi"}},
+		// a context opened while the socket's own context has a request outstanding (answer parked / Recv waiting)
+		// starts idle: it has nothing to receive, and what it does leaves the socket's request alone
+		{Opts: []reqCtxOpt{d, d}, Steps: []string{"conn", "send c0", "reply p1 cur c0", "reopen c1", "recv c1", "recv c0", "send c1", "recv c1", "reply p1 cur c1"}},
+		{Opts: []reqCtxOpt{d, d}, Steps: []string{"conn", "send c0", "recv c0", "reopen c1", "recv c1", "send c1", "recv c1", "reply p1 cur c1", "reply p1 cur c0"}},
+		{Inherit: true, Opts: []reqCtxOpt{{Retry: 5 * sec, RecvExp: 30 * sec}, {Retry: 5 * sec, RecvExp: 30 * sec}}, Steps: []string{"conngated", "send c0", "reopen c1", "send c1", "release p1", "recv c1", "release p1", "reply p1 cur c1", "reply p1 cur c0", "recv c0"}},
 		// context close with a pending receive; socket close with pending calls
 		{Opts: []reqCtxOpt{d, d}, Steps: []string{"conn", "send c1", "recv c1", "cclose c1", "send c1", "send c0", "recv c0"}},
 	}
@@ -509,6 +567,21 @@ func reqRandom(rng *rand.Rand) reqCfg {
 			o += fmt.Sprintf(" p%d", 1+rng.Intn(np))
 		}
 		c.Steps = append(c.Steps, o)
+	}
+	// (decided by a generator of their own, so that the scenarios of a seed are the ones they were before these
+	// steps existed, plus the variation)
+	r2 := rand.New(rand.NewSource(int64(len(fmt.Sprint(c.Steps)))*7919 + int64(n)))
+	if r2.Intn(3) == 0 {
+		for k, o := range c.Steps {
+			if strings.HasPrefix(o, "send c") && r2.Intn(2) == 0 {
+				c.Steps[k] = "send2" + o[4:]
+				break
+			}
+		}
+	}
+	if nctx > 1 && r2.Intn(3) == 0 {
+		k := r2.Intn(len(c.Steps) + 1)
+		c.Steps = append(c.Steps[:k], append([]string{fmt.Sprintf("reopen c%d", 1+r2.Intn(nctx-1))}, c.Steps[k:]...)...)
 	}
 	return c
 }
